@@ -96,7 +96,7 @@ class Driver:
     """Drives one wrapper instance through a history and checks every answer."""
 
     def __init__(self, mode, n, lb, ub, x_init, out: Outcome, factory=default_factory, mutate=True, resolving=False, fail_f=(), fail_g=(),
-                 rel=REL, eps_abs=EPS_ABS):
+                 rel=REL, eps_abs=EPS_ABS, value_style=None):
         from scipy.optimize._numdiff import approx_derivative as ref_ad
 
         self.ref_ad = ref_ad
@@ -106,6 +106,8 @@ class Driver:
         self.lb, self.ub = lb, ub
         self.fp, self.gp = (objective_resolving(n, K565 if resolving == "tiny" else None) if resolving else objective(n))
         self.fail_f, self.fail_g = set(fail_f), set(fail_g)  # indices of the user-function calls that raise (once each)
+        self.value_style = value_style  # how the user's objective hands its value back
+        self.vbuf0, self.vbuf1 = np.zeros(()), np.zeros(1)
         self.flog = []  # points received by the user objective during the current request
         self.nf_total = 0
         self.ng_total = 0
@@ -118,6 +120,14 @@ class Driver:
                 raise TransientFault(f"objective call #{k} failed")
             self.flog.append(np.array(x, copy=True))
             v = self.fp(x)
+            if np.iscomplexobj(v):
+                return v  # complex-step stencil point: handed back as it is
+            if self.value_style == "reused_0d":
+                self.vbuf0[...] = v  # np.sum(..., out=buf): the same 0-d array object at every call
+                return self.vbuf0
+            if self.value_style == "reused_1":
+                self.vbuf1[0] = v
+                return self.vbuf1
             return v
 
         def jac(x, *a):
@@ -179,16 +189,19 @@ class Driver:
                 ans_f, ans_g = sf.fun_and_grad(arg)
         except TransientFault:
             # the user's function failed during this request: nothing is known at this point afterwards; the next request (there
-            # or elsewhere) must again be answered by a fresh evaluation. Counters are re-based on the wrapper's own (whether a
-            # failed call counts is not part of the statement)
+            # or elsewhere) must again be answered by a fresh evaluation. A call that raised is a call of the user's function all
+            # the same: the counters equal the number of times the user's functions were entered (round 11: counters moved behind
+            # the call)
             out.count("requests")
             out.count("requests_failing_in_the_user_function")
             self.nad_own += _AD_COUNT[0] - nad0
-            self.nf_total, self.fail_f = sf.nfev, {k - self.nf_total + sf.nfev for k in self.fail_f if k >= self.nf_total}
-            if self.mode == "callable":
-                self.ng_total, self.fail_g = sf.ngev, {k - self.ng_total + sf.ngev for k in self.fail_g if k >= self.ng_total}
-            else:
-                self.nad_own = sf.ngev
+            if sf.nfev != self.nf_total:
+                out.violate("nfev_drift", f"{label}: after a request during which the user's function raised, nfev={sf.nfev} but the objective was "
+                            f"called {self.nf_total} times (the failing call included)", mode=str(self.mode), what="after_failure")
+            exp_ng = self.ng_total if self.mode == "callable" else (self.nad_own if _AD_COUNT[1] else None)
+            if exp_ng is not None and sf.ngev != exp_ng:
+                out.violate("ngev_drift", f"{label}: after a request during which the user's function raised, ngev={sf.ngev} but {exp_ng} gradient "
+                            f"computations were started", mode=str(self.mode), what="after_failure")
             self.prev_point = None
             self.f_known = self.g_known = False
             return
@@ -296,9 +309,11 @@ def alphabet_tiny(n=2):
     return lb, ub, [np.zeros(n), d1, 2.0 * d1]
 
 
-def run_history(mode, hist, scale_pos, mutate, out, factory=default_factory, n=2, label="", ulp=False, fail_f=(), fail_g=(), rel=REL, eps_abs=EPS_ABS):
+def run_history(mode, hist, scale_pos, mutate, out, factory=default_factory, n=2, label="", ulp=False, fail_f=(), fail_g=(), rel=REL, eps_abs=EPS_ABS,
+                value_style=None):
     lb, ub, pts = (alphabet_tiny(n) if ulp == "tiny" else alphabet_ulp(n)) if ulp else alphabet(n)
-    drv = Driver(mode, n, lb, ub, pts[0], out, factory=factory, mutate=mutate, resolving=ulp, fail_f=fail_f, fail_g=fail_g, rel=rel, eps_abs=eps_abs)
+    drv = Driver(mode, n, lb, ub, pts[0], out, factory=factory, mutate=mutate, resolving=ulp, fail_f=fail_f, fail_g=fail_g, rel=rel, eps_abs=eps_abs,
+                 value_style=value_style)
     for k, sym in enumerate(hist):
         if scale_pos is not None:
             if k == scale_pos:
@@ -656,6 +671,10 @@ def run(spec):
                     kw["fail_g"] = set(int(v) for v in rng.integers(1, max(2, Lr // 2), int(rng.integers(0, 3))))
                     hist = tuple(h if (i == 0 or rng.random() < 0.6) else hist[i - 1] for i, h in enumerate(hist))  # many repeats
                     out.count("histories_with_transient_faults")
+                # the objective hands back a float, or the same 0-d array (np.sum(..., out=buf)) / one-element array at every call
+                kw["value_style"] = (None, None, "reused_0d", "reused_1")[(j * 7 + spec["seed"]) % 4]
+                if kw["value_style"]:
+                    out.count("histories_with_objective_returning_one_reused_array")
                 run_history(mode, hist, sp, [True, False, "reuse"][int(rng.integers(0, 3))], out, n=n, label=f"random[{variant}] n={n} scale@{sp} ", **kw)
                 out.count("histories")
                 out.count("random_histories")
